@@ -6,7 +6,7 @@ CONSTANTS
   MaxClient = 3
   MaxRestarts = 1
   MaxLog = 12
-  KeyByCtx = FALSE
+  KeyByCtx = TRUE
   OneTerminal = TRUE
   SkipOldCalls = TRUE
   StampCall = TRUE
